@@ -11,6 +11,7 @@ import (
 	"regexp"
 	"sort"
 	"strings"
+	"sync"
 
 	"verifharness/hk"
 )
@@ -19,6 +20,9 @@ import (
 type Family struct {
 	Name string
 	Run  func(en *Engine)
+	// Background families are started first and run in parallel to the others (each family is a process of its
+	// own anyway); used for probes that mostly wait, such as the long-idle probe.
+	Background bool
 }
 
 // Main runs a TaskLane property driver. Every family runs in a CHILD process (the same binary,
@@ -81,7 +85,14 @@ func Main(id string, fams []Family) {
 	merged := map[string]any{}
 	perFamily := map[string]any{}
 	exit := 0
-	for _, f := range fams {
+	type famResult struct {
+		cases []byte
+		stats map[string]any
+		exit  int
+	}
+	runFamily := func(f Family) famResult {
+		var res famResult
+		var out2 bytes.Buffer
 		cdir := filepath.Join(out, "fam-"+f.Name)
 		os.MkdirAll(cdir, 0o755)
 		args := append([]string(nil), os.Args[1:]...)
@@ -98,16 +109,16 @@ func Main(id string, fams []Family) {
 			if !ok {
 				// the child could not be run at all (exec failure, I/O error): infrastructure, not a crash of the code under test
 				fmt.Fprintf(os.Stderr, "harness error: cannot run family %s: %v\n", f.Name, err)
-				exit = 3
-				continue
+				res.exit = 3
+				return res
 			}
 			rc = ee.ExitCode()
 		}
 		// the child's cases
 		if b, err := os.ReadFile(filepath.Join(cdir, "cases.txt")); err == nil {
-			cases.Write(b)
+			out2.Write(b)
 			if len(b) > 0 && b[len(b)-1] != '\n' {
-				cases.WriteString("\n")
+				out2.WriteString("\n")
 			}
 		}
 		// race reports
@@ -128,7 +139,7 @@ func Main(id string, fams []Family) {
 			}
 			sort.Strings(keys)
 			for _, k := range keys {
-				fmt.Fprintf(cases, "VIOL race %s reports=%d family=%s\n", k, seen[k], f.Name)
+				fmt.Fprintf(&out2, "VIOL race %s reports=%d family=%s\n", k, seen[k], f.Name)
 			}
 		}
 		st := map[string]any{}
@@ -139,19 +150,43 @@ func Main(id string, fams []Family) {
 		switch {
 		case rc == 0, rc == 66 && len(reports) > 0:
 		case rc == 3:
-			exit = 3 // harness error reported by hk.Main
+			res.exit = 3 // harness error reported by hk.Main
 		default:
 			// the process died: unrecovered panic in a lane goroutine, fatal error, signal
 			last := "?"
 			if b, err := os.ReadFile(filepath.Join(cdir, "progress")); err == nil && len(b) > 0 {
 				last = strings.TrimSpace(string(b))
 			}
-			fmt.Fprintf(cases, "VIOL crash %s %s rc=%d %s\n", f.Name, last, rc, crashTail(errbuf.String()))
+			fmt.Fprintf(&out2, "VIOL crash %s %s rc=%d %s\n", f.Name, last, rc, crashTail(errbuf.String()))
 			st["crashed"] = true
 		}
-		perFamily[f.Name] = st
-		mergeStats(merged, st)
 		os.RemoveAll(cdir)
+		res.cases, res.stats = out2.Bytes(), st
+		return res
+	}
+	results := make([]famResult, len(fams))
+	var bg sync.WaitGroup
+	for i, f := range fams {
+		if f.Background {
+			bg.Add(1)
+			go func() { defer bg.Done(); results[i] = runFamily(f) }()
+		}
+	}
+	for i, f := range fams {
+		if !f.Background {
+			results[i] = runFamily(f)
+		}
+	}
+	bg.Wait()
+	for i, f := range fams {
+		cases.Write(results[i].cases)
+		if results[i].exit != 0 {
+			exit = results[i].exit
+		}
+		if results[i].stats != nil {
+			perFamily[f.Name] = results[i].stats
+			mergeStats(merged, results[i].stats)
+		}
 	}
 	cases.Close()
 	merged["by_family_process"] = perFamily
